@@ -332,6 +332,9 @@ func (update *Update) Prepend(eventlist *EventList) error {
 	if count == 0 {
 		return nil
 	}
+	if len(update.Events) == 0 {
+		return errors.New("update contains no events to prepend to")
+	}
 	ours := update.Events[0].Index
 	last := eventlist.Events[count-1].Index
 	if last < ours-1 {
@@ -346,7 +349,12 @@ func (update *Update) Prepend(eventlist *EventList) error {
 		SignedAccumulator: update.SignedAccumulator,
 		Events:            update.Events[min:],
 	}
-	n.product = n.Product(n.Events[0].Index)
+	if len(n.Events) > 0 {
+		n.product = n.Product(n.Events[0].Index)
+	} else {
+		// the prepended events reach up to our last event: nothing of ours is left to keep
+		n.product = big.NewInt(1)
+	}
 	n.Events = append(eventlist.Events, n.Events...)
 	if eventlist.product != nil {
 		n.product.Mul(n.product, eventlist.product)
